@@ -64,6 +64,52 @@ pub fn run(rep: &mut Report, tier: &str, seed: u64) {
             }
         });
     location_stream(rep, &mut runner, tier, seed);
+    quantified_stream(rep, &mut runner, tier, seed);
+}
+
+/// A stanza whose TOP-LEVEL pattern is quantified: one match covers several sibling nodes. The match-node attribute is the
+/// first of them (what `Match::full_capture` reports), in both modes.
+fn quantified_stream(rep: &mut Report, runner: &mut Runner, tier: &str, seed: u64) {
+    use crate::gen::dsl::Program;
+    use crate::props::common::{load, Loaded, Source};
+    let n = if tier == "thorough" { 60 } else { 8 };
+    let root = crate::rng::Rng::new(seed ^ 0x9a47);
+    for i in 0..n {
+        let mut r = root.fork(i as u64);
+        let (pat, unit) = *r.pick(&[("(comment)+", "# c\n"), ("(comment)+ @_cs", "# c\n"), ("(expression_statement)+ @_es", "f(1)\n"), ("(pass_statement)+", "pass\n")]);
+        let text = format!("{} {{\n  node qn\n  attr (qn) k = 1\n}}\n", pat);
+        let reps = r.range(2, 4);
+        let src = format!("x = 1\n{}y = 2\n{}", unit.repeat(reps), unit.repeat(r.range(1, 3)));
+        let file = match load(&text) {
+            Ok(Ok(f)) => f,
+            other => {
+                rep.fail("direct", "C15 quantified-pattern program rejected", true, json!({"tsg": text, "result": format!("{:?}", other.map(|x| x.map(|_| "file")))}));
+                continue;
+            }
+        };
+        let source = Source { tree: crate::tree::parse_python(&src), src };
+        let info = crate::tree::TreeInfo::new(&source.tree);
+        let loaded = Loaded { program: Program { text: text.clone(), header: String::new(), stanzas: vec![text.clone()], globals: vec![], stanza_count: 1, has_fault: false, features: vec![], static_fault: None }, file };
+        let mi = crate::execx::model_input(&loaded.file, &source.tree, &source.src, &info);
+        runner.set_tree(&info, &source.src);
+        runner.table = crate::oracle::OracleTable::new();
+        let case = Case { tsg: &text, loaded: &loaded, source: &source, info: &info, mi: &mi };
+        rep.case(&format!("{}\u{0}{}", text, source.src), true);
+        let mut per_mode: Vec<Option<Sexp>> = Vec::new();
+        for lazy in [false, true] {
+            let res = runner.check_mode(rep, &case, &RunCfg { lazy, globals: vec![], outer_globals: vec![], debug: Some((DBG.0.into(), DBG.1.into(), DBG.2.into())), cancel_at: None }, true, false);
+            rep.count(&format!("quantified-stream:{}:{}", if lazy { "lazy" } else { "strict" }, res.class));
+            per_mode.push(if res.class == "ok" { res.run.graph.clone() } else { None });
+        }
+        if let (Some(a), Some(b)) = (&per_mode[0], &per_mode[1]) {
+            if a != b {
+                rep.fail("direct", "C15 strict and lazy give different debug attributes for a match of a quantified top-level pattern", true,
+                    json!({"tsg": text, "source": source.src, "strict": a.pretty(), "lazy": b.pretty()}));
+            } else {
+                rep.count("quantified-stream:modes-agree");
+            }
+        }
+    }
 }
 
 /// The location half of the property, with the expected positions computed FROM THE DSL TEXT (not from the parsed AST):
